@@ -43,6 +43,13 @@ def materialise(case):
             os.symlink("sub", os.path.join(proj, e))
         elif e == "src/linkdir_out":
             os.symlink("../outside", os.path.join(proj, e))
+        elif e == "src/pipe.rs":
+            os.mkfifo(os.path.join(proj, e))
+        elif e == "src/sub/sock.rs":
+            import socket
+            so = socket.socket(socket.AF_UNIX)
+            so.bind(os.path.join(proj, e))
+            so.close()
         elif e == "src/readonly.rs":
             put(e)
             os.chmod(os.path.join(proj, e), 0o444)
